@@ -2,8 +2,12 @@
 erase_artificials, compute_generator, second_phase, incremental re-solve (helper of checks/c06.py).
 
 proof:  PPLV.Props.C06Tab (tableau_setup_solutions, erase_artificials_valid, reoptimize_value_eq_fresh,
-        status_sound_partial, pricing_choice_irrelevant, lp_fresh_correct, …) and PPLV.Props.C06TabBB
-        (lp_fresh_implies_LPCorrect: the model discharges BB.LPCorrect for fresh nodes) over the code-shaped model lean/PPLV/Solver/Pending.lean.
+        status_transitions, pricing_choice_irrelevant, lp_fresh_correct, …) and PPLV.Props.C06TabBB
+        (lp_fresh_implies_LPCorrect: the model discharges BB.LPCorrect for fresh nodes), PPLV.Props.C06TabIncr
+        (incremental_setup_hands_over, lp_incremental_correct: the incremental call from the state before it;
+        status_sound: the full status protocol with the feasible-basis invariant),
+        PPLV.Props.C06TabOracleIncr (model_oracle_incr_ok, solve_mip_end_to_end_incremental) over the code-shaped
+        model lean/PPLV/Solver/Pending.lean.
 tie:    harness/c06_tab.cc (`#define private public`) builds seeded LP instances (1–4 variables, 0–7
         constraints, all classes of the parse_constraints table, tautologies, degenerate ties, dependent
         equalities, infeasible / unbounded), calls is_lp_satisfiable() / second_phase() and dumps the PRIVATE
@@ -23,7 +27,8 @@ import collections, hashlib, os, re, shutil, time
 from .common import VERIF, BUILD
 from . import poly_common as pc
 
-PROPS = ["PPLV.Props.C06Tab", "PPLV.Props.C06TabBB", "PPLV.Props.C06TabOracle", "PPLV.Props.C06TabIncr"]
+PROPS = ["PPLV.Props.C06Tab", "PPLV.Props.C06TabBB", "PPLV.Props.C06TabOracle", "PPLV.Props.C06TabIncr",
+         "PPLV.Props.C06TabOracleIncr"]
 
 
 def _site(obl):
